@@ -123,6 +123,7 @@ func runC14(c *Ctx) {
 	ruleMergeTarget(c)
 	ruleMdiffPairs(c)
 	ruleFormatCursors(c)
+	ruleStaleAfterEdit(c)
 	ruleTimeExact(c)
 	ruleSpanSiblings(c)
 	ruleSuccessAtEOF(c)
